@@ -663,8 +663,21 @@ func collectorPubSubCalls(appName string, app *sysl.Application) {
 
 func checkEndpointCalls(mod *sysl.Module) bool {
 	valid := false
-	for appName, app := range mod.Apps {
-		for epname, ep := range app.Endpoints {
+	// the walk stops at the first invalid call: visit in name order so that the outcome is fixed
+	appNames := make([]string, 0, len(mod.Apps))
+	for appName := range mod.Apps {
+		appNames = append(appNames, appName)
+	}
+	sort.Strings(appNames)
+	for _, appName := range appNames {
+		app := mod.Apps[appName]
+		epnames := make([]string, 0, len(app.Endpoints))
+		for epname := range app.Endpoints {
+			epnames = append(epnames, epname)
+		}
+		sort.Strings(epnames)
+		for _, epname := range epnames {
+			ep := app.Endpoints[epname]
 			for _, stmt := range ep.Stmt {
 				valid = checkCalls(mod, appName, epname, stmt)
 				if !valid {
@@ -861,7 +874,15 @@ func (p *Parser) inferExprType(mod *sysl.Module,
 }
 
 func (p *Parser) inferTypes(mod *sysl.Module, appName string) {
-	for viewName, view := range mod.Apps[appName].Views {
+	// anonymous types are numbered per view, so two views can write the same AnonType_n__:
+	// visit views in name order so that the same source always gives the same model
+	viewNames := make([]string, 0, len(mod.Apps[appName].Views))
+	for viewName := range mod.Apps[appName].Views {
+		viewNames = append(viewNames, viewName)
+	}
+	sort.Strings(viewNames)
+	for _, viewName := range viewNames {
+		view := mod.Apps[appName].Views[viewName]
 		if syslutil.HasPattern(view.Attrs, "abstract") {
 			continue
 		}
